@@ -281,7 +281,7 @@ class RustFile:
                 if not found:
                     raise ScanError('item not found: %s :: %s' % (self.rel, ' :: '.join(path)))
                 # skip #[cfg(test)] items
-                f2 = [f for f in found if not any('cfg(test)' in a for a in f.attrs)]
+                f2 = [f for f in found if not any(('cfg(test)' in a or 'cfg(any(test' in a) for a in f.attrs)]
                 if len(f2) > 1:
                     raise ScanError('ambiguous item (%d matches): %s :: %s' % (len(f2), self.rel, ' :: '.join(path)))
                 if not f2:
